@@ -449,6 +449,33 @@ func runFCIds(c *core.Ctx) {
 					}
 					return true
 				})
+				// every non-deterministic choice of the section asks the oracle: a selection from a set takes its index
+				// from NextFairnessCounter, and a tagged switch (the generator emits those only for either) switches on it
+				nSel, nSw := 0, 0
+				ast.Inspect(body, func(m ast.Node) bool {
+					key := fmt.Sprintf("%s/%s", an.ShortPkg(pk.Path), name)
+					isOracle := func(ex ast.Expr) bool {
+						cc, ok := an.Unparen(ex).(*ast.CallExpr)
+						return ok && an.IsMethodNamed(an.CalleeFunc(info, cc), an.PkgDistsys, "ArchetypeInterface", "NextFairnessCounter")
+					}
+					switch x := m.(type) {
+					case *ast.CallExpr:
+						if an.IsMethodNamed(an.CalleeFunc(info, x), an.PkgTLA, "Value", "SelectElement") && len(x.Args) == 1 {
+							nSel++
+							if !isOracle(x.Args[0]) {
+								c.Bad(fmt.Sprintf("%s:selection#%d-asks-the-oracle", key, nSel), x.Pos(), "a with-selection picks its element without consulting NextFairnessCounter: the same member is chosen on every retry, so the other (enabled) members are never tried when the section aborts for that one")
+							}
+						}
+					case *ast.SwitchStmt:
+						if x.Tag != nil {
+							nSw++
+							if !isOracle(x.Tag) {
+								c.Bad(fmt.Sprintf("%s:either#%d-asks-the-oracle", key, nSw), x.Pos(), "an either is resolved without consulting NextFairnessCounter: the same arm is taken on every retry, so an enabled alternative is starved")
+							}
+						}
+					}
+					return true
+				})
 				for id, n := range ids {
 					if n > 1 {
 						c.Bad(fmt.Sprintf("%s/%s:duplicate-id(%s)", an.ShortPkg(pk.Path), name, id), body.Pos(), "choice id %q is used %d times in one critical section: the oracle treats them as one digit when their positions coincide, so combinations are skipped", id, n)
